@@ -520,6 +520,13 @@ func (x *exec) onWrite(ev *world.Event) {
 			continue
 		}
 		// t became True in this write
+		if x.curStale && cs.wasTrueBefore(t) {
+			// a status patch computed from a lagging snapshot had taken the condition back (diagnostic above); this one,
+			// computed from a lagging snapshot that already showed it True, re-asserts it without the sub-reconciler having
+			// run. The transition that counts was the first one, judged then against the world of that moment.
+			x.r.Inc("diag_condition_reasserted_by_stale_patch:" + t)
+			continue
+		}
 		x.r.Inc("m3_became_true:" + t)
 		x.sig["true:"+t] = true
 		if i > 0 && !condTrue(after, order[i-1]) {
@@ -535,6 +542,16 @@ func (x *exec) onWrite(ev *world.Event) {
 			x.checkInitialized(cs, after)
 		}
 	}
+}
+
+// wasTrueBefore: some stored version older than the latest one already showed the condition True.
+func (cs *claimState) wasTrueBefore(t string) bool {
+	for i := 0; i < len(cs.versions)-1; i++ {
+		if v := cs.versions[i]; v != nil && condTrue(v, t) {
+			return true
+		}
+	}
+	return false
 }
 
 func (x *exec) checkLaunched(cs *claimState, nc *v1.NodeClaim) {
